@@ -47,8 +47,10 @@ def declare(reg):
         'mro': ['tatsu/contexts/context.py:ParseContext', 'tatsu/contexts/engine.py:ParserEngine',
                 'tatsu/contexts/core.py:ParserCore'],
         'fields': {'states': 'States', 'tracer': 'opaque:Tracer', '_active_config': 'ConfigR',
-                   'keywords': 'strset', 'semantics': 'opaque:Semantics', '_memos': 'MemoD', '_results': 'MemoD'},
-        'wf': ['len(self.states.state_stack) >= 1', 'spec_frame_wf(self.states.state_stack[-1])'],
+                   'keywords': 'strset', 'semantics': 'opaque:Semantics', '_memos': 'MemoD', '_results': 'MemoD',
+                   'textlen': 'int'},
+        'wf': ['len(self.states.state_stack) >= 1', 'spec_frame_wf(self.states.state_stack[-1])',
+               'self.states.state_stack[-1].cursor.len == self.textlen'],
         'isa': ['Ctx', 'ParseContext', 'ParserEngine', 'ParserCore'],
     }
     # grammar-model nodes are opaque objects; attributes are uninterpreted functions of the node
